@@ -21,7 +21,7 @@ MANIFEST = {
     'note': 'Speeds taken non-negative for the order proofs (is_sign_positive := true); the sign convention of min_speed is covered by C02-1.',
 }
 EXPLANATION = 'Per-site lower-bound obligations on insert_speed and pre-value provenance of the restore decision.'
-RULES = ['C13-1.sites', 'C13-2.restore', 'C13-3.merge', 'C13-4.empty', 'C13-5.search', 'C13-6.add_speeds', 'C13-7.seed', 'C13-8.canonical', 'C13-9.gate', 'C13-10.sorted', 'C13-11.base']
+RULES = ['C13-1.sites', 'C13-2.restore', 'C13-3.merge', 'C13-4.empty', 'C13-5.search', 'C13-6.add_speeds', 'C13-7.seed', 'C13-8.canonical', 'C13-9.gate', 'C13-10.sorted', 'C13-11.base', 'C13-12.upper']
 ASSUMPTIONS = ['speeds are non-negative in the order proofs', 'idx_start / idx_end are the positions their search loops are meant to find (not decided)']
 
 
@@ -40,3 +40,8 @@ def run(ctx):
     SP.applies(px); SP.select_set(px); SP.min_speed_spec(px)
     from . import C06
     C06.run(RuleProxy(ctx, {'C06-1.linkpoints': 'C13-11.base'}))
+    # "equals the minimum of all posted restrictions" is two-sided: a restriction that never reaches the profile (dropped by the
+    # posting loop, skipped before its tail-end extension, ...) leaves the limit too HIGH, which is C02's direction; C13 therefore
+    # takes over every clause of C02 as well
+    from . import C02
+    C02.run(RuleProxy(ctx, {k: 'C13-12.upper' for k in C02.RULES}))
